@@ -17,6 +17,8 @@ pub fn prop_names(prop: &str) -> &'static [&'static str] {
     match prop {
         "C07" => crate::c07::SERIALIZERS,
         "C13" => crate::c13::NAMES,
+        "C14" => crate::c14::NAMES,
+        "C15" => crate::c15::NAMES,
         "C17" => crate::c17::NAMES,
         _ => &[],
     }
@@ -26,6 +28,8 @@ pub fn generate(prop: &str, rng: &mut Rng, tier: &str) -> Scenario {
     match prop {
         "C07" => crate::c07::generate(rng, tier),
         "C13" => crate::c13::generate(rng, tier),
+        "C14" => crate::c14::generate(rng, tier),
+        "C15" => crate::c15::generate(rng, tier),
         "C17" => crate::c17::generate(rng, tier),
         _ => panic!("HARNESS: unknown property {prop}"),
     }
@@ -35,6 +39,8 @@ pub fn execute(sc: &Scenario, verbose: bool) -> RunOut {
     match sc.property.as_str() {
         "C07" => crate::c07::execute(sc, verbose),
         "C13" => crate::c13::execute(sc, verbose),
+        "C14" => crate::c14::execute(sc, verbose),
+        "C15" => crate::c15::execute(sc, verbose),
         "C17" => crate::c17::execute(sc, verbose),
         p => {
             let mut o = RunOut::default();
